@@ -2218,6 +2218,8 @@ def run_auth_scripts(
             callstack_limit=callstack_limit
         )
         assert tape.has_terminated()
+        if 'returned' in cache:
+            del cache['returned']
         contracts = tape.contracts
         plugins = tape.plugins
 
@@ -2234,6 +2236,8 @@ def run_auth_scripts(
             tape.plugins = plugins
             run_tape(tape, stack, cache)
             assert tape.has_terminated()
+            if 'returned' in cache:
+                del cache['returned']
 
         assert len(stack) == 1
         item = stack.get()
